@@ -78,7 +78,10 @@ class Ty:
     args: tuple = ()
 
     def __str__(self):
-        return lean_ty(self)
+        try:
+            return lean_ty(self)
+        except Untranslatable:
+            return f"<{self.kind}>"
 
 
 INT, BOOL, STR, BYTES, NONE = Ty("Int"), Ty("Bool"), Ty("Str"), Ty("Bytes"), Ty("None")
@@ -100,6 +103,10 @@ def Tup(*ts):
     return Ty("Tup", tuple(ts))
 
 
+def Dct(k, v):
+    return Ty("Dict", (k, v))
+
+
 def lean_ty(t: Ty, top=True) -> str:
     if t.kind in ("Int", "Bool"):
         return t.kind
@@ -107,7 +114,7 @@ def lean_ty(t: Ty, top=True) -> str:
         return "Pre.Str"
     if t.kind == "Bytes":
         return "Bytes"
-    if t.kind in ("None", "Obj"):
+    if t.kind in ("None", "Obj", "Tup0"):
         return "Unit"
     if t.kind == "CharSet":
         return "Char → Bool" if top else "(Char → Bool)"
@@ -120,9 +127,45 @@ def lean_ty(t: Ty, top=True) -> str:
         s = "List " + lean_ty(t.args[0], False)
     elif t.kind == "Tup":
         s = " × ".join(lean_ty(a, False) for a in t.args)
+    elif t.kind == "Unb":
+        # a local variable that may still be unbound (Spec.maybe_unbound): `none` = unbound
+        s = "Option " + lean_ty(t.args[0], False)
+    elif t.kind == "Rec":
+        # an object of a simple class: the tuple of its attributes, in the order RECORDS lists them
+        fs = RECORDS[t.args[0]]
+        if len(fs) == 1:
+            return lean_ty(fs[0][1], top)
+        s = " × ".join(lean_ty(ft, False) for _, ft in fs)
+    elif t.kind == "Dict":
+        # a Python dict is modelled as the list of its (key, value) pairs in insertion order, keys
+        # unique (kept so by `Pre.dictSet`)
+        s = f"List ({lean_ty(t.args[0], False)} × {lean_ty(t.args[1], False)})"
     else:
         raise Untranslatable(f"internal: unknown type {t}")
     return s if top else f"({s})"
+
+
+#: record types: class name -> [(attribute name, Ty)] (registered by `record`); a value of the class is
+#: the tuple of its attributes
+RECORDS = {}
+
+
+def record(name, fields):
+    """declare the class `name` as a record with these [(attribute, Lean type text)]"""
+    RECORDS[name] = [(f, parse_ty(t) if isinstance(t, str) else t) for f, t in fields]
+    return Ty("Rec", (name,))
+
+
+def rec_proj(lean: str, rec_name: str, fld: str):
+    """(Lean term of attribute `fld` of the record value `lean`, its type)"""
+    fs = RECORDS[rec_name]
+    names = [f for f, _ in fs]
+    if fld not in names:
+        return None
+    k, m = names.index(fld), len(fs)
+    if m == 1:
+        return lean, fs[0][1]
+    return lean + ".2" * k + (".1" if k < m - 1 else ""), fs[k][1]
 
 
 #: names of abstract types (type parameters of a spec: e.g. a quality type with an order supplied
@@ -161,6 +204,8 @@ def parse_ty(text: str) -> Ty:
             return CHARSET
         if tk in ABSTRACT_TYPES:
             return Abs(tk)
+        if tk in RECORDS:
+            return Ty("Rec", (tk,))
         if tk == "Unit":
             return NONE
         raise Untranslatable(f"bad type text {text!r} at {tk!r}")
@@ -176,6 +221,15 @@ def parse_ty(text: str) -> Ty:
         if pos < len(toks) and toks[pos] == "Set":
             pos += 1
             return Ty("Set", (app(),))
+        if pos < len(toks) and toks[pos] == "Dict":
+            pos += 1
+            k = atom()
+            return Ty("Dict", (k, atom_or_app()))
+        return atom()
+
+    def atom_or_app():
+        if pos < len(toks) and toks[pos] in ("Option", "List", "Set", "Dict"):
+            return app()
         return atom()
 
     def prod():
@@ -221,6 +275,13 @@ class Fn:
     #: the Lean model covers only part of the Python function's domain and answers with a marker
     #: error outside it: such a call must not sit inside `try` (a handler would swallow the marker)
     partial_model: bool = False
+    #: (module path below src/werkzeug, qualname) of the Python function this entry stands for: a
+    #: call with fewer positional arguments than `params` takes the missing trailing ones from the
+    #: *default values in the current source* (constants only)
+    defaults_from: tuple | None = None
+    #: for a method of a record (Spec.methods key ("Rec:<Class>", name)): the attributes of the
+    #: receiver the Lean function takes first, in this order
+    recv_fields: tuple = ()
 
 
 EXC_PARENT = {
@@ -238,6 +299,9 @@ EXC_PARENT = {
     "ZeroDivisionError": "ArithmeticError",
     "ArithmeticError": "Exception",
     "AttributeError": "Exception",
+    "NameError": "Exception",
+    "UnboundLocalError": "NameError",
+    "AssertionError": "Exception",
     "StopIteration": "Exception",
     "OSError": "Exception",
     "Exception": "BaseException",
@@ -245,6 +309,11 @@ EXC_PARENT = {
     "HTTPException": "Exception",
     "BadRequest": "HTTPException",
     "SecurityError": "BadRequest",
+    "RequestedRangeNotSatisfiable": "HTTPException",
+    "RequestEntityTooLarge": "HTTPException",
+    "ClientDisconnected": "BadRequest",
+    # werkzeug.exceptions.BadRequestKeyError(BadRequest, KeyError): handlers for KeyError catch it
+    "BadRequestKeyError": "KeyError",
 }
 
 
@@ -275,6 +344,7 @@ METHODS = {
     ("Str", "replace"): Fn("Pre.replace", [STR, STR, STR], STR),
     ("Str", "isascii"): Fn("Pre.isascii", [STR], BOOL),
     ("Str", "zfill"): Fn("Pre.zfill", [STR, INT], STR),
+    ("Str", "title"): Fn("Pre.title", [STR], STR),
     ("CharSet", "issuperset"): Fn("Pre.issuperset", [CHARSET, STR], BOOL),
     ("Str", "split/0"): Fn("Pre.splitWs", [STR], Lst(STR)),
     ("Str", "split/1"): Fn("Pre.splitOn", [STR, STR], Lst(STR), nonempty_lit=(1,)),
@@ -285,6 +355,12 @@ METHODS = {
     ("Str", "strip/1"): Fn("Pre.stripChars", [STR, STR], STR),
     ("Str", "lstrip/1"): Fn("Pre.lstripChars", [STR, STR], STR),
     ("Str", "rstrip/1"): Fn("Pre.rstripChars", [STR, STR], STR),
+    # dict (see lean_ty): the receiver is the first argument
+    ("Dict", "items"): Fn("Pre.dictItems", [None], None, result_of=lambda ts: Lst(Tup(*ts[0].args)) if ts[0].kind == "Dict" else None),
+    ("Dict", "keys"): Fn("Pre.dictKeys", [None], None, result_of=lambda ts: Lst(ts[0].args[0]) if ts[0].kind == "Dict" else None),
+    ("Dict", "values"): Fn("Pre.dictValues", [None], None, result_of=lambda ts: Lst(ts[0].args[1]) if ts[0].kind == "Dict" else None),
+    ("Dict", "get/1"): Fn("Pre.dictGet?", [None, None], None, result_of=lambda ts: Opt(ts[0].args[1]) if ts[0].kind == "Dict" and ts[0].args[0] == ts[1] and ts[0].args[1].kind != "Opt" else None),
+    ("Dict", "get/2"): Fn("Pre.dictGetD", [None, None, None], None, result_of=lambda ts: ts[0].args[1] if ts[0].kind == "Dict" and ts[0].args[0] == ts[1] and ts[0].args[1] == ts[2] else None),
 }
 
 #: mutating methods of containers (locals or state attributes): (kind, method) ->
@@ -307,6 +383,9 @@ FUNCS = {
     "int": Fn("Pre.pyIntPlain", [STR], INT, raises=("ValueError",), partial_model=True),
     # synthetic: `a, b = X.split(sep, 1)` (see Translator.stmt)
     "<split-once>": Fn("Pre.splitOnce", [STR, STR], Tup(STR, STR), raises=("ValueError",), nonempty_lit=(1,)),
+    "<splitws-once>": Fn("Pre.splitWsOnce", [STR], Tup(STR, STR), raises=("ValueError",)),
+    # synthetic: `a, b = X.rsplit(sep, 1)`
+    "<rsplit-once>": Fn("Pre.rsplitOnce", [STR, STR], Tup(STR, STR), raises=("ValueError",), nonempty_lit=(1,)),
     "posixpath.normpath": Fn("Wz.Paths.normpath", [STR], STR),
     "posixpath.isabs": Fn("Wz.Paths.isabs", [STR], BOOL),
     # posixpath.join(a, *p) called as join(*parts): TypeError when parts is empty
@@ -376,6 +455,42 @@ class Spec:
     #: abstract collaborators whose only modelled effect is to set state flags,
     #: e.g. {"self.on_update(self)": [("self.notified", "True")]}
     effects: dict = field(default_factory=dict)
+    #: abstract types (names of `type_params`) whose values are always true in a boolean context
+    #: (Python objects without `__bool__` / `__len__`, e.g. datetime)
+    truthy_types: list = field(default_factory=list)
+    #: share the statements after an `if` inside a `for` body through a local function (as outside
+    #: loops) instead of one copy per branch
+    join_in_loops: bool = False
+    #: source texts of context-manager expressions whose `with` block is just its body in the
+    #: (sequential) model, e.g. "self._failed_pin_auth.get_lock()"
+    with_noop: list = field(default_factory=list)
+    #: decorators the function may carry besides `staticmethod` (e.g. "property": the getter is
+    #: translated as a function of the attributes it reads)
+    decorators: list = field(default_factory=list)
+    #: local names that may be re-assigned a value of another type (e.g. `bool | str` parameters)
+    retype: list = field(default_factory=list)
+    #: ("*": every local may be retyped - for unrolled loops over heterogeneous tuples)
+    #: nested helper functions `def f(x): ...` inside the function: {name: ([(param, type text)],
+    #: result type text)} - pure ones only (no raise escapes, no assignment to enclosing variables);
+    #: they become local Lean functions and may read the enclosing variables
+    nested: dict = field(default_factory=dict)
+    #: {abstract type name: Lean function}: `str(x)` / an f-string field of that type
+    abs_str: dict = field(default_factory=dict)
+    #: {python name: Fn}: `x in <name>` for an object with its own `__contains__` (the Fn takes x)
+    in_ops: dict = field(default_factory=dict)
+    #: {abstract type name: Fn}: calling a local variable of that type, `f(args)` (the Fn takes f first)
+    callables: dict = field(default_factory=dict)
+    #: translate only a prefix of the function: (source text of a statement - as `ast.unparse` prints
+    #: it -, python expression text): when control reaches that statement the translated function
+    #: returns the value of the expression instead of going on
+    stop_at: tuple | None = None
+    #: {local name: type text}: variables that some path reaches without having assigned them (e.g.
+    #: assigned only inside a loop body and read after the loop): they start unbound; reading one
+    #: that is still unbound is the error "UnboundLocalError", as in Python
+    maybe_unbound: dict = field(default_factory=dict)
+    #: give the function a `(fuel : Nat)` parameter although it has no `while` loop of its own (it
+    #: calls translated functions that take fuel: `Fn(..., extra=("fuel",))`)
+    needs_fuel: bool = False
     doc: str = ""
 
 
@@ -452,6 +567,11 @@ class JoinMismatch(Exception):
 JOIN_MIN_LINES = 8
 
 
+class PlainTooBig(Exception):
+    """translating an `if` with one copy of the following statements per branch grows too large:
+    the following statements are shared through a local function instead"""
+
+
 class NeedUnwrap(Exception):
     """an Option-typed variable is used as a plain value"""
 
@@ -491,6 +611,11 @@ class LoopCtx:
     exports: list = field(default_factory=list)
     export_tys: list | None = None
     rest_expr: str | None = None
+    #: for a loop nested in another one: the enclosing loop; `.ret` of the inner loop carries a
+    #: result of the enclosing loop's body (so a `return` inside is `.ret (.ret r)`)
+    parent: object = None
+    #: Lean type of the auxiliary definition's result
+    result_ty: str | None = None
 
 
 class Translator:
@@ -566,7 +691,7 @@ class Translator:
     def translate(self) -> str:
         fn, is_method = self.find_def()
         spec = self.spec
-        if fn.decorator_list and not all(isinstance(d, ast.Name) and d.id in ("staticmethod",) for d in fn.decorator_list):
+        if fn.decorator_list and not all(isinstance(d, ast.Name) and d.id in ("staticmethod", *spec.decorators) for d in fn.decorator_list):
             self.bad(fn, "decorated function")
         a = fn.args
         if a.vararg is not None and not any(p == "*" + a.vararg.arg for p, _ in spec.params):
@@ -593,7 +718,7 @@ class Translator:
         if spec.type_params:
             binders.append("{" + " ".join(spec.type_params) + " : Type}")
         self.implicit = binders[0] + " " if binders else ""
-        self.has_while = any(isinstance(x, ast.While) for x in ast.walk(fn))
+        self.has_while = any(isinstance(x, ast.While) for x in ast.walk(fn)) or spec.needs_fuel
         if self.has_while:
             # a `while` loop is translated with an explicit bound on its iterations; running out of it
             # is a marker error, so an equality theorem has to show that the bound given suffices
@@ -620,7 +745,13 @@ class Translator:
         elif spec.raises:
             rty = f"Except String ({rty})" if " " in rty else f"Except String {rty}"
         self.ret_lean_ty = rty
-        body = self.block(fn.body, env, None, self.fall_off_end(fn))
+        fn = self.generator_as_list(fn)
+        unb_lines = []
+        for nm_, ty_ in spec.maybe_unbound.items():
+            t_ = Ty("Unb", (parse_ty(ty_),))
+            env[nm_] = Var(lean_name(nm_), t_)
+            unb_lines += [f"-- ({nm_}: not bound yet)", f"let {lean_name(nm_)} : {lean_ty(t_)} := none"]
+        body = unb_lines + self.block(fn.body, env, None, self.fall_off_end(fn))
         doc = spec.doc or f"`{spec.qualname}` of src/werkzeug/{spec.module}, translated by tools/py2lean.py"
         out = []
         out += self.aux
@@ -628,6 +759,56 @@ class Translator:
         out.append(f"def {spec.name} {' '.join(binders)} : {rty} :=")
         out += ["  " + ln for ln in body]
         return "\n".join(out) + "\n"
+
+    def generator_as_list(self, fn):
+        """a generator function as the list of everything it yields (for a consumer that reads it to
+        the end; an exception raised after some items were yielded is raised before any item is
+        seen): `yield e` becomes `yielded_.append(e)`, the function returns `yielded_`"""
+        ys = [x for st_ in fn.body for x in ast.walk(st_) if isinstance(x, (ast.Yield, ast.YieldFrom))]
+        if not ys:
+            return fn
+        if self.result_ty.kind != "List":
+            self.bad(fn, "a generator function needs a List result type in its spec")
+
+        class T(ast.NodeTransformer):
+            def visit_FunctionDef(self_, node):  # noqa: N805
+                return node  # nested functions keep their own yields (refused there)
+
+            def visit_Expr(self_, node):  # noqa: N805
+                if isinstance(node.value, ast.Yield) and node.value.value is not None:
+                    call = ast.Expr(value=ast.Call(func=ast.Attribute(value=ast.Name(id="yielded_", ctx=ast.Load()), attr="append", ctx=ast.Load()), args=[node.value.value], keywords=[]))
+                    ast.copy_location(call, node)
+                    ast.fix_missing_locations(call)
+                    call._py2lean_comment = self.srcline(node) + "   [the generator as the list of its items]"
+                    return call
+                return node
+
+            def visit_Return(self_, node):  # noqa: N805
+                if node.value is not None and not (isinstance(node.value, ast.Constant) and node.value.value is None):
+                    self.bad(node, "a generator that returns a value")
+                r = ast.Return(value=ast.Name(id="yielded_", ctx=ast.Load()))
+                ast.copy_location(r, node)
+                ast.fix_missing_locations(r)
+                return r
+
+        import copy as _c
+
+        fn2 = _c.copy(fn)
+        body = [T().visit(_copy(st_)) for st_ in fn.body]
+        for st_ in body:
+            for x in ast.walk(st_):
+                if isinstance(x, (ast.Yield, ast.YieldFrom)):
+                    self.bad(x, "yield in a position other than a statement of its own (or `yield from`)")
+        init = ast.Assign(targets=[ast.Name(id="yielded_", ctx=ast.Store())], value=ast.List(elts=[], ctx=ast.Load()))
+        fin = ast.Return(value=ast.Name(id="yielded_", ctx=ast.Load()))
+        for x in (init, fin):
+            ast.copy_location(x, fn)
+            ast.fix_missing_locations(x)
+        init._py2lean_comment = "(generator: the items it yields, in order)"
+        fin._py2lean_comment = "(end of the generator)"
+        self.spec.locals.setdefault("yielded_", self.spec.result)
+        fn2.body = [init] + body + [fin]
+        return fn2
 
     def fall_off_end(self, fn):
         def k(env, loop):
@@ -677,9 +858,15 @@ class Translator:
                 s = st if unit else f"({st}, {s})"
         elif self.raises:
             s = f".ok ({s})" if not _is_atomic_text(s) else f".ok {s}"
-        if loop is not None:
+        return [self.loop_wrap(s, loop)]
+
+    def loop_wrap(self, s: str, loop) -> str:
+        """a value of the function's result type as the result of the body of `loop` (and of every
+        loop around it): `.ret` once per level"""
+        while loop is not None:
             s = f".ret ({s})" if not _is_atomic_text(s) else f".ret {s}"
-        return [s]
+            loop = loop.parent
+        return s
 
     def wrap_error(self, cls_lean: str, node, loop, env=None) -> list:
         """cls_lean: a Lean string term (literal or variable)"""
@@ -688,11 +875,7 @@ class Translator:
         s = f".error {cls_lean}"
         if self.spec.state and not getattr(self, "nested_fn", False):
             s = f"({self.state_tuple_of(env, node)}, .error {cls_lean})"
-            if loop is not None:
-                s = f".ret {s}"
-        elif loop is not None:
-            s = f".ret ({s})"
-        return [s]
+        return [self.loop_wrap(s, loop)]
 
     def emit_return(self, e: E, node, env, loop):
         if self.result_ty == NONE and self.spec.state:
@@ -707,12 +890,19 @@ class Translator:
     def coerce(self, e: E, ty: Ty, node) -> E:
         if e.ty == ty:
             return e
+        if ty.kind == "Rec" and e.ty.kind == "Tup" and [t for _, t in RECORDS[ty.args[0]]] == list(e.ty.args):
+            return E(e.lean, ty, None, e.atomic)  # the tuple of the attributes is the object
         if ty.kind == "Abs" and e.ty == INT and getattr(e, "intlit", None) is not None:
             key = (ty.args[0], e.intlit)
             if key not in self.spec.abs_lits:
                 self.bad(node, f"the spec gives no meaning to the literal {e.intlit} in the abstract type {ty.args[0]}")
             term = self.spec.abs_lits[key]
             return E(term, ty, None, _is_atomic_text(term))
+        if ty.kind == "Unb":
+            if e.ty.kind == "Unb":
+                self.bad(node, "internal: unbound-typed value")
+            c = self.coerce(e, ty.args[0], node)
+            return E(f"some {P(c)}", ty)
         if ty.kind == "Opt":
             inner = ty.args[0]
             if e.ty == NONE:
@@ -730,6 +920,12 @@ class Translator:
             return E("(" + ", ".join(x.lean for x in items) + ")", ty, None, True)
         if ty.kind == "List" and e.ty.kind == "List" and e.lean == "[]":
             return E("[]", ty, None, True)
+        if ty.kind == "Dict" and e.ty.kind == "Dict" and e.lean == "[]":
+            return E("[]", ty, None, True)
+        if ty.kind == "Dict" and e.ty.kind == "Dict" and ty.args[0] == e.ty.args[0] and ty.args[1] == Opt(e.ty.args[1]):
+            return E(f"{P(e)}.map fun kv_ => (kv_.1, some kv_.2)", ty)  # values that are never None
+        if ty.kind in ("Dict", "List", "Set") and e.ty.kind == "Tup0":
+            return E("[]", ty, None, True)  # `cls(())`-style empty initialiser
         self.bad(node, f"type mismatch: {e.ty} where {ty} is expected")
 
     def plain(self, e: E, node) -> E:
@@ -751,8 +947,16 @@ class Translator:
             return e
         if e.ty == NONE:
             return FALSE
-        if e.ty in (STR, BYTES) or e.ty.kind == "List":
+        if e.ty in (STR, BYTES) or e.ty.kind in ("List", "Dict", "Set"):
             return self.negate(E(f"{P(e)}.isEmpty", BOOL, None, True))
+        if e.ty.kind == "Rec":
+            fn = self.spec.methods.get(("Rec:" + e.ty.args[0], "__bool__"))
+            if fn is None:
+                return TRUE  # a class without __bool__ / __len__: always true
+            args = [rec_proj(P(e), e.ty.args[0], f)[0] for f in fn.recv_fields]
+            return E(f"{fn.lean} " + " ".join(args), BOOL)
+        if e.ty.kind == "Abs" and e.ty.args[0] in self.spec.truthy_types:
+            return TRUE  # objects without __bool__ / __len__ (e.g. datetime) are always true
         if e.ty == INT:
             return self.negate(E(f"{P(e)} == 0", BOOL))
         if e.ty == OBJ:
@@ -762,14 +966,23 @@ class Translator:
         if e.ty.kind == "Opt":
             if e.var is not None:
                 raise NeedUnwrap(e.var, node)  # statement level splits first; reaching here is unguarded
-            self.bad(node, "truthiness of an Optional non-variable expression")
+            # an Optional value that is not a variable (nothing to narrow): None is false, anything
+            # else has the truth value of its content
+            inner = self.truthy(E("v_", e.ty.args[0], None, True), node)
+            if inner.const is True:
+                return E(f"{P(e)}.isSome", BOOL)
+            if inner.const is False:
+                return FALSE
+            return E(f"Option.any (fun v_ => {inner.lean}) {P(e)}", BOOL)
         self.bad(node, f"truthiness of a value of type {e.ty}")
 
     # ---- expression translation ----------------------------------------
 
     def expr(self, n, env) -> E:
         self.size += 1
-        if self.size > 20000:
+        if self.size > getattr(self, "size_soft", 10**9):
+            raise PlainTooBig()
+        if self.size > 60000:
             raise Untranslatable(f"{self.where}: translation grows too large (case splits / duplicated continuations)")
         src = None
         if self.spec.static:
@@ -816,6 +1029,8 @@ class Translator:
         if isinstance(n, ast.Name):
             if n.id in env:
                 v = env[n.id]
+                if v.ty.kind == "Unb":
+                    raise NeedUnwrap(n.id, n)  # possibly unbound: the enclosing statement splits
                 return E(v.lean, v.ty, None, True, n.id)
             if n.id in self.spec.consts:
                 term, ty = self.spec.consts[n.id]
@@ -829,6 +1044,12 @@ class Translator:
             if d is not None and d in self.spec.consts:
                 term, ty = self.spec.consts[d]
                 return E(term, parse_ty(ty), None, _is_atomic_text(term))
+            base = self.plain(self.expr(n.value, env), n.value)
+            if base.ty.kind == "Rec":
+                pr = rec_proj(P(base), base.ty.args[0], n.attr)
+                if pr is None:
+                    self.bad(n, f"the record {base.ty.args[0]} has no attribute {n.attr!r}")
+                return E(pr[0], pr[1], None, True)
             self.bad(n, "unsupported attribute access")
         if isinstance(n, ast.JoinedStr):
             parts = []
@@ -843,6 +1064,8 @@ class Translator:
                         parts.append(P(x) if len(n.values) > 1 else x.lean)
                     elif x.ty == INT:
                         parts.append(f"Pre.strOfInt {P(x)}")
+                    elif x.ty.kind == "Abs" and x.ty.args[0] in self.spec.abs_str:
+                        parts.append(f"{self.spec.abs_str[x.ty.args[0]]} {P(x)}")
                     else:
                         self.bad(n, f"f-string field of type {x.ty} (only str and int)")
                 else:
@@ -857,7 +1080,7 @@ class Translator:
                 x = self.plain(items[0], n)
                 return E(f"[{x.lean}]", Lst(x.ty), None, True)
             if len(items) < 2:
-                self.bad(n, "empty tuple")
+                return E("()", Ty("Tup0"), None, True)  # `()`: only as an empty initialiser
             e = E("(" + ", ".join(x.lean for x in items) + ")", Tup(*[x.ty for x in items]), None, True)
             e.items = items
             return e
@@ -905,6 +1128,18 @@ class Translator:
             return self.call(n, env)
         if isinstance(n, ast.ListComp):
             return self.listcomp(n, env)
+        if isinstance(n, ast.GeneratorExp):
+            # a generator expression handed to a consumer that reads it once to the end (join, list,
+            # a constructor): its items in order, i.e. the list comprehension (elements are pure here:
+            # raising calls inside a comprehension are refused)
+            lc = ast.ListComp(elt=n.elt, generators=n.generators)
+            ast.copy_location(lc, n)
+            ast.fix_missing_locations(lc)
+            return self.listcomp(lc, env)
+        if isinstance(n, ast.Dict):
+            if n.keys:
+                self.bad(n, "non-empty dict literal")
+            return E("[]", Ty("Dict", (NONE, NONE)), None, True)
         self.bad(n, "unsupported expression")
 
     def target_names(self, t):
@@ -939,7 +1174,10 @@ class Translator:
             if isinstance(x, ast.NamedExpr):
                 self.bad(n, "assignment expression inside a comprehension that is not the whole right-hand side of an assignment")
         it = self.plain(self.expr(g.iter, env), g.iter)
-        if it.ty.kind != "List":
+        if it.ty.kind not in ("List", "Set"):
+            # (a set is iterated in the order of its model list: insertion order; for a real
+            # `set` / `frozenset` the order is arbitrary - statements about it hold for every order
+            # only if the consumer does not depend on it)
             self.bad(n, f"comprehension over a {it.ty}")
         elt_ty = it.ty.args[0]
         self.tmp += 1
@@ -1010,7 +1248,9 @@ class Translator:
             else:
                 x = self.expr(v, env)
                 if x.ty != BOOL:
-                    # `a or b` where a is not a bool returns a itself: only allowed in a boolean context
+                    if is_or and v is n.values[0]:
+                        return self.value_or(n, env)
+                    # `a and b` where a is not a bool returns a itself: only allowed in a boolean context
                     self.bad(n, "`and` / `or` over non-bool operands outside a boolean context")
                 b = x
             if b.const is not None:
@@ -1025,6 +1265,25 @@ class Translator:
             return acc[0]
         op = " || " if is_or else " && "
         return E(op.join(P(x) for x in acc), BOOL)
+
+    def value_or(self, n, env) -> E:
+        """`a or b or c` as a value, all operands of one plain type: the first true one, else the last"""
+        xs = [self.expr(v, env) for v in n.values]
+        xs = [x for x in xs[:-1] if x.ty != NONE] + xs[-1:]  # a None operand is false: skipped
+        tys = [x.ty for x in xs if x.ty.kind != "Tup0"]
+        if tys and xs[-1].ty.kind == "Tup0":
+            xs[-1] = self.coerce(xs[-1], tys[0], n)  # `xs or ()`: the empty collection
+        xs = [self.plain(x, n) for x in xs]
+        if len(xs) == 1:
+            return xs[0]
+        ty = xs[0].ty
+        if any(x.ty != ty for x in xs) or not (ty in (STR, BYTES, INT) or ty.kind in ("List", "Dict", "Set")):
+            self.bad(n, "`or` as a value over operands that are not all of one str / bytes / int / list type")
+        cur = xs[-1]
+        for x in reversed(xs[:-1]):
+            t = self.truthy(x, n)
+            cur = E(f"if {t.lean} then {x.lean} else {cur.lean}", ty)
+        return cur
 
     def compare(self, n, env) -> E:
         operands = [n.left] + list(n.comparators)
@@ -1050,6 +1309,20 @@ class Translator:
         return E(" && ".join(P(x) for x in acc), BOOL)
 
     def compare1(self, op, ln, rn, val, i, env, node) -> E:
+        if isinstance(op, (ast.Is, ast.IsNot)) and isinstance(rn, ast.Constant) and isinstance(rn.value, bool):
+            # `x is True` / `x is False`: identity with the bool singletons - for a bool-typed value
+            # the value itself, for a value of any other plain type never
+            a = self.plain(val(i), ln)
+            pos = isinstance(op, ast.Is)
+            if a.ty == BOOL:
+                known = lookup_fact(env, ln)
+                if known is not None:
+                    a = bconst(known)
+                r = a if rn.value else self.negate(a)
+                return r if pos else self.negate(r)
+            if a.ty in (STR, BYTES, INT) or a.ty.kind in ("List", "Tup", "Dict", "Set", "Rec"):
+                return bconst(not pos)
+            self.bad(node, f"`is {rn.value}` on a value of type {a.ty}")
         if isinstance(op, (ast.Is, ast.IsNot)):
             if not (isinstance(rn, ast.Constant) and rn.value is None):
                 self.bad(node, "`is` with anything but None")
@@ -1062,14 +1335,32 @@ class Translator:
             return bconst(not pos)
         if isinstance(op, (ast.In, ast.NotIn)):
             neg = isinstance(op, ast.NotIn)
+            if dotted(rn) is not None and dotted(rn) in self.spec.in_ops:
+                fn_ = self.spec.in_ops[dotted(rn)]
+                if fn_.raises:
+                    self.bad(node, "`in` on an object whose __contains__ can raise")
+                r = self.apply(fn_, [ln], node, env)
+                return self.negate(r) if neg else r
             a = val(i)
             if isinstance(rn, (ast.Tuple, ast.Set, ast.List)):
-                a = self.plain(a, ln)
+                if a.ty == NONE:
+                    # `None in {"a", "b"}` is False (no item of the literal is None: they are plain)
+                    for item in rn.elts:
+                        self.plain(self.expr(item, env), item)
+                    return bconst(neg)
+                opt_left = a.ty.kind == "Opt"
+                if not opt_left:
+                    a = self.plain(a, ln)
                 alts, items = [], []
                 for item in rn.elts:
                     x = self.plain(self.expr(item, env), item)
-                    if x.ty != a.ty:
+                    if x.ty != (a.ty.args[0] if opt_left else a.ty):
                         self.bad(node, f"`in` over a literal of {x.ty} for a {a.ty}")
+                    if opt_left:
+                        # an Optional value against plain items: None equals none of them
+                        alts.append(f"{P(a)} == some {P(x)}")
+                        items.append(f"some {P(x)}")
+                        continue
                     alts.append(f"{P(a)} == {P(x)}")
                     items.append(x.lean)
                 if not alts:
@@ -1085,6 +1376,11 @@ class Translator:
                     r = E(f"Pre.contains {P(b)} {P(a)}", BOOL)
                 elif b.ty.kind in ("List", "Set") and b.ty.args[0] == a.ty:
                     r = E(f"{P(b)}.contains {P(a)}", BOOL)
+                elif b.ty.kind in ("List", "Set") and b.ty.args[0] == Opt(a.ty):
+                    # a plain value against a collection that may also hold None
+                    r = E(f"{P(b)}.contains (some {P(a)})", BOOL)
+                elif b.ty.kind == "Dict" and b.ty.args[0] == a.ty:
+                    r = E(f"Pre.dictHas {P(b)} {P(a)}", BOOL)
                 else:
                     self.bad(node, f"`in` between {a.ty} and {b.ty}")
             if neg:
@@ -1126,6 +1422,15 @@ class Translator:
             if o.ty.kind == "Opt":
                 return E(f"{P(o)}.isNone", BOOL)
             return FALSE
+        if a.ty.kind == "Abs" or b.ty.kind == "Abs":
+            # equality of an abstract ordered type: `a <= b and b <= a` (the order is total on the
+            # values that occur - the assumption recorded at Spec.orders)
+            abs_ty = a.ty if a.ty.kind == "Abs" else b.ty
+            a, b = self.coerce(a, abs_ty, node), self.coerce(b, abs_ty, node)
+            le = self.spec.orders.get(abs_ty.args[0])
+            if le is None:
+                self.bad(node, f"the spec declares no order for the abstract type {abs_ty.args[0]}")
+            return E(f"{le} {P(a)} {P(b)} && {le} {P(b)} {P(a)}", BOOL)
         if a.ty == b.ty:
             if a.ty.kind in ("Int", "Bool", "Str", "Bytes", "Opt", "List", "Tup"):
                 if a.ty == BOOL and a.const is not None and b.const is not None:
@@ -1208,10 +1513,17 @@ class Translator:
             self.bad(n, "keyword arguments")
         f = n.func
         d = dotted(f)
+        if isinstance(f, ast.Name) and f.id in self.__dict__.get("local_fns", {}) and f.id not in env:
+            return self.local_fns[f.id], list(n.args)
+        if isinstance(f, ast.Name) and f.id in env and env[f.id].ty.kind == "Abs" and env[f.id].ty.args[0] in self.spec.callables and not n.keywords:
+            return self.spec.callables[env[f.id].ty.args[0]], [f] + list(n.args)
         if isinstance(f, ast.Name) and f.id in env:
             self.bad(n, "call of a local variable")
         if isinstance(f, ast.Name) and f.id in ("len", "min", "max", "any", "all", "isinstance", "bool", "str"):
             return None
+        if isinstance(f, ast.Name) and f.id in ("tuple", "list") and len(n.args) == 1 and not n.keywords and f.id not in self.spec.calls:
+            # `tuple(xs)` / `list(xs)` of a list / generator expression: the items as a (new) list
+            return Fn("id", [None], None, result_of=lambda ts: ts[0] if ts[0].kind == "List" else (Lst(ts[0].args[0]) if ts[0].kind == "Set" else None)), list(n.args)
         if isinstance(f, ast.Name) and f.id == "iter" and len(n.args) == 1:
             # an iterator = the list of items not yet consumed (see Var.iter_of)
             return Fn("Pre.iterOf", [None], None, result_of=lambda ts: ts[0] if ts[0].kind == "List" else None), list(n.args)
@@ -1245,8 +1557,23 @@ class Translator:
                 if d in FUNCS:
                     return FUNCS[d], args
                 self.bad(n, f"call of {d!r} is not in py2lean's tables")
+        if isinstance(f, ast.Attribute) and f.attr == "pop" and len(n.args) == 1 and not n.keywords and self.target_key(f.value, env) is not None and env[self.target_key(f.value, env)].ty.kind == "Dict":
+            # `d.pop(k)`: the value, KeyError when absent; the dict loses the key (an effect on `d`)
+            key_ = self.target_key(f.value, env)
+            dty = env[key_].ty
+            return Fn("Pre.dictPop", [dty.args[0]], dty.args[1], raises=("KeyError",), effect_key=key_), list(n.args)
         if isinstance(f, ast.Attribute):
             recv = self.plain(self.expr(f.value, env), f.value)
+            if recv.ty.kind == "Rec":
+                fn = self.spec.methods.get(("Rec:" + recv.ty.args[0], f.attr))
+                if fn is None:
+                    self.bad(n, f"method {f.attr!r} of the record {recv.ty.args[0]} is not declared in the spec")
+                proj = []
+                for fld in fn.recv_fields:
+                    a_ = ast.Attribute(value=f.value, attr=fld, ctx=ast.Load())
+                    ast.copy_location(a_, f)
+                    proj.append(a_)
+                return fn, proj + list(n.args)
             key = (recv.ty.kind, f.attr)
             if key not in METHODS:
                 key = (recv.ty.kind, f"{f.attr}/{len(n.args)}")  # arity-dependent methods
@@ -1276,15 +1603,43 @@ class Translator:
             self.bad(n, "a call that can raise is only supported inside an assignment, a return or the test of an if")
         return self.apply(fn, args, n, env)
 
+    def source_defaults(self, module, qualname):
+        """default values (AST nodes, None = no default) of the parameters of a function of the
+        current source, `self` excluded"""
+        key = (module, qualname)
+        cache = self.__dict__.setdefault("_defaults_cache", {})
+        if key not in cache:
+            tr = Translator(Spec(module=module, qualname=qualname, name="_", params=[], result="Unit"), self.repo)
+            fn, is_method = tr.find_def()
+            a = fn.args
+            names = [x.arg for x in a.posonlyargs] + [x.arg for x in a.args]
+            dfl = [None] * (len(names) - len(a.defaults)) + list(a.defaults)
+            if is_method:
+                names, dfl = names[1:], dfl[1:]
+            cache[key] = dfl
+        return cache[key]
+
     def apply(self, fn: Fn, args, n, env) -> E:
-        if len(args) != len(fn.params):
-            self.bad(n, f"{fn.lean} expects {len(fn.params)} arguments, the call has {len(args)}")
+        if fn.defaults_from is not None and len(args) < len(fn.params):
+            dfl = self.source_defaults(*fn.defaults_from)
+            if len(dfl) != len(fn.params):
+                self.bad(n, f"{fn.lean}: the source function has {len(dfl)} parameters, the table entry {len(fn.params)}")
+            args = list(args)
+            for d in dfl[len(args):]:
+                if not isinstance(d, ast.Constant):
+                    self.bad(n, f"{fn.lean}: a missing argument has no constant default in the source")
+                args.append(d)
+        params = list(fn.params)
+        if fn.recv_fields and len(args) == len(fn.recv_fields) + len(params):
+            params = [None] * len(fn.recv_fields) + params  # the receiver's attributes come first
+        if len(args) != len(params):
+            self.bad(n, f"{fn.lean} expects {len(params)} arguments, the call has {len(args)}")
         for i in fn.nonempty_lit:
             a = args[i]
             if not (isinstance(a, ast.Constant) and isinstance(a.value, (str, bytes)) and len(a.value) > 0):
                 self.bad(n, f"argument {i} of {fn.lean} must be a non-empty literal (Python raises ValueError for an empty one)")
         out, tys = [], []
-        for a, t in zip(args, fn.params):
+        for a, t in zip(args, params):
             x = self.expr(a, env)
             x = self.plain(x, n) if t is None else self.coerce(x, t, n)
             tys.append(x.ty)
@@ -1301,7 +1656,7 @@ class Translator:
             if len(n.args) != 1:
                 self.bad(n, "len arity")
             x = self.plain(self.expr(n.args[0], env), n.args[0])
-            if not (x.ty in (STR, BYTES) or x.ty.kind == "List"):
+            if not (x.ty in (STR, BYTES) or x.ty.kind in ("List", "Dict", "Set")):
                 self.bad(n, f"len of a {x.ty}")
             return E(f"Int.ofNat {P(x)}.length", INT)
         if name in ("min", "max"):
@@ -1331,7 +1686,7 @@ class Translator:
                 self.bad(n, "isinstance of anything but (name, class name)")
             x = self.expr(n.args[0], env)
             cls = n.args[1].id
-            kinds = {"str": "Str", "bytes": "Bytes", "int": "Int", "list": "List", "tuple": "Tup", "bool": "Bool"}
+            kinds = {"str": "Str", "bytes": "Bytes", "int": "Int", "list": "List", "tuple": "Tup", "bool": "Bool", "dict": "Dict"}
             if cls not in kinds or x.ty.kind in ("Opt", "None"):
                 self.bad(n, "isinstance that the declared type does not decide")
             if cls == "int" and x.ty.kind == "Bool":
@@ -1377,12 +1732,21 @@ class Translator:
                         for a in args_:
                             if isinstance(a, ast.AST):
                                 walk(a, lazy)
+                        if fn_.raises:
+                            found.append((x, (fn_, args_), lazy))
                         return
             if isinstance(x, ast.ListComp):
                 # the comprehension is translated as a whole (filter / map): raising calls inside
                 # it are refused there
                 walk(x.generators[0].iter, lazy)
                 return
+            if isinstance(x, ast.Call) and isinstance(x.func, ast.Attribute) and not any(m_(x) is not None for m_, _ in self.spec.patterns):
+                # a raising call inside the receiver of a method call is evaluated (and bound) first;
+                # the method call itself is resolved once the receiver is a bound temporary
+                n0_ = len(found)
+                walk(x.func.value, lazy)
+                if len(found) > n0_:
+                    return
             if isinstance(x, ast.Call):
                 try:
                     res = self.resolve_call(x, env)
@@ -1404,7 +1768,14 @@ class Translator:
                     b = self.expr(x.value, env)
                 except (NeedUnwrap, NoneUsed):
                     raise
-                if b.ty.kind == "List" or b.ty in (STR, BYTES):
+                except Untranslatable:
+                    b = None  # e.g. an index operation inside: found by the walk of the children below
+                if b is not None and b.ty.kind == "Dict":
+                    walk(x.value, lazy)
+                    walk(x.slice, lazy)
+                    found.append((x, None, lazy))
+                    return
+                if b is not None and (b.ty.kind == "List" or b.ty in (STR, BYTES)):
                     walk(x.value, lazy)
                     walk(x.slice, lazy)
                     found.append((x, None, lazy))
@@ -1453,7 +1824,19 @@ class Translator:
         if not stmts:
             return k(env, loop)
         s, rest = stmts[0], stmts[1:]
-        if isinstance(s, ast.For):
+        if self.spec.stop_at is not None and not getattr(s, "_py2lean_stop", False):
+            try:
+                src_ = ast.unparse(s)
+            except Exception:  # noqa: BLE001
+                src_ = None
+            if src_ == self.spec.stop_at[0]:
+                r_ = ast.Return(value=ast.parse(self.spec.stop_at[1], mode="eval").body)
+                ast.copy_location(r_, s)
+                ast.fix_missing_locations(r_)
+                r_._py2lean_stop = True
+                r_._py2lean_comment = f"{self.srcline(s)}   [the translation stops here and answers {self.spec.stop_at[1]}]"
+                return self.stmt(r_, env, loop, lambda e_, l_: self.bad(s, "internal: statements after the stop"))
+        if isinstance(s, (ast.For, ast.While)):
             s._py2lean_rest = rest
 
         def k2(env2, loop2):
@@ -1471,6 +1854,13 @@ class Translator:
                     continue
                 if nm in env and env[nm].ty.kind == "Opt":
                     names.append(nm)
+                elif nm not in env and "." in nm and "[" not in nm:
+                    # attribute of a local record: narrowed through a pseudo-variable `x.attr`
+                    base, attr = nm.rsplit(".", 1)
+                    if base in env and env[base].ty.kind == "Rec":
+                        pr = rec_proj(env[base].lean, env[base].ty.args[0], attr)
+                        if pr is not None and pr[1].kind == "Opt":
+                            names.append(nm)
                 elif nm not in env and nm.endswith("]") and "[" in nm:
                     # component k of a local tuple: narrowed through a pseudo-variable `x[k]`
                     base, k = nm[:-1].split("[")
@@ -1479,7 +1869,13 @@ class Translator:
         if not names:
             return body_fn(env)
         nm = names[0]
-        if nm not in env:
+        if nm not in env and "[" not in nm:
+            base, attr = nm.rsplit(".", 1)
+            pr = rec_proj(env[base].lean, env[base].ty.args[0], attr)
+            env = dict(env)
+            env[nm] = Var(f"{env[base].lean}_{attr}", pr[1])
+            scrut = pr[0]
+        elif nm not in env:
             base, k = nm[:-1].split("[")
             k, m = int(k), len(env[base].ty.args)
             proj = ".2" * k + (".1" if k < m - 1 else "")
@@ -1508,7 +1904,8 @@ class Translator:
             env2 = dict(env)
             env2[u.name] = Var(v.lean, v.ty.args[0])
             inner = self.guarded(node, env2, loop, fn)
-            return [f"match {v.lean} with", "| none =>"] + ind(self.wrap_error('"TypeError"', node, loop, env)) + [f"| some {v.lean} =>"] + ind(inner)
+            err_cls = '"UnboundLocalError"' if v.ty.kind == "Unb" else '"TypeError"'
+            return [f"match {v.lean} with", "| none =>"] + ind(self.wrap_error(err_cls, node, loop, env)) + [f"| some {v.lean} =>"] + ind(inner)
         except NoneUsed as u:
             if not self.raises:
                 self.bad(u.node, f"{u.name!r} is None here (TypeError) and the function is declared pure")
@@ -1519,6 +1916,19 @@ class Translator:
             return k(env, loop)  # docstring
         if isinstance(s, ast.Pass):
             return k(env, loop)
+        if isinstance(s, ast.FunctionDef):
+            return self.stmt_nested_def(s, env, loop, k)
+        if isinstance(s, (ast.Import, ast.ImportFrom)):
+            # a local import only binds names (import side effects are outside the model)
+            return self.comment(s) + k(env, loop)
+        if isinstance(s, ast.AnnAssign) and s.value is not None:
+            # `x: T = e` is `x = e` (annotations have no run-time meaning here)
+            a_ = ast.Assign(targets=[s.target], value=s.value)
+            ast.copy_location(a_, s)
+            a_._py2lean_comment = getattr(s, "_py2lean_comment", None) or self.srcline(s)
+            if isinstance(s.target, ast.Name):
+                a_._py2lean_rest = getattr(s, "_py2lean_rest", None)
+            return self.stmt(a_, env, loop, k)
         # --- `return self.m(args)` / `x = self.m(args)` for a translated stateful method
         if isinstance(s, (ast.Return, ast.Assign)) and isinstance(s.value, ast.Call):
             try:
@@ -1534,8 +1944,9 @@ class Translator:
                         self.bad(s, "assignment target that is not a local name / state attribute")
                     return self.comment(s) + self.stateful_call(s, s.value, res0, env, loop, None, lambda e, env2: self.bind(tgt_, e, s, env2, loop, k))
         # --- effects of abstract collaborators (spec.effects)
-        if isinstance(s, ast.Expr) and self.spec.effects:
-            src = ast.unparse(s.value)
+        if isinstance(s, (ast.Expr, ast.Assign)) and self.spec.effects and not (isinstance(s, ast.Assign) and isinstance(s.targets[0], ast.Name) and s.targets[0].id.startswith("<key>")):
+            # (an assignment to an attribute / item of a collaborator can be declared an effect too)
+            src = ast.unparse(s.value) if isinstance(s, ast.Expr) else ast.unparse(s)
             if src in self.spec.effects:
                 stmts = []
                 for key, text in self.spec.effects[src]:
@@ -1544,6 +1955,8 @@ class Translator:
                     ast.fix_missing_locations(a)
                     a._py2lean_comment = f"{self.srcline(s)}   [modelled effect: {key} = {text}]"
                     stmts.append(a)
+                if not stmts:
+                    return self.comment(s, f"{self.srcline(s)}   [no effect in the model]") + k(env, loop)
                 return self.block(stmts, env, loop, k)
         if isinstance(s, ast.Assign) and len(s.targets) == 1 and isinstance(s.targets[0], ast.Name) and s.targets[0].id.startswith("<key>"):
             key = s.targets[0].id[5:]
@@ -1591,7 +2004,7 @@ class Translator:
                 and len(s.targets[0].elts) == 2
                 and isinstance(v, ast.Call)
                 and isinstance(v.func, ast.Attribute)
-                and v.func.attr == "split"
+                and v.func.attr in ("split", "rsplit")
                 and not v.keywords
                 and len(v.args) == 2
                 and isinstance(v.args[1], ast.Constant)
@@ -1599,7 +2012,12 @@ class Translator:
                 and type(v.args[1].value) is int
             ):
                 # `a, b = X.split(sep, 1)`: exactly two parts, or ValueError (not enough values to unpack)
-                call = ast.Call(func=ast.Name(id="<split-once>", ctx=ast.Load()), args=[v.func.value, v.args[0]], keywords=[])
+                call = ast.Call(func=ast.Name(id="<split-once>" if v.func.attr == "split" else "<rsplit-once>", ctx=ast.Load()), args=[v.func.value, v.args[0]], keywords=[])
+                if v.func.attr == "rsplit" and isinstance(v.args[0], ast.Constant) and v.args[0].value is None:
+                    self.bad(s, "rsplit(None, 1)")
+                if isinstance(v.args[0], ast.Constant) and v.args[0].value is None:
+                    # `a, b = X.split(None, 1)`: the first word and the rest (left-stripped), or ValueError
+                    call = ast.Call(func=ast.Name(id="<splitws-once>", ctx=ast.Load()), args=[v.func.value], keywords=[])
                 ast.copy_location(call, v)
                 ast.fix_missing_locations(call)
                 return self.comment(s) + self.stmt_value(s, call, env, loop, lambda e, env2: self.bind(s.targets[0], e, s, env2, loop, k), handlers=None)
@@ -1635,22 +2053,67 @@ class Translator:
                 return self.bind(tgt, E(f"{v.lean} ++ [{item.lean}]", lst_ty), s, env2, loop, k)
 
             return self.comment(s) + self.stmt_value(s, s.value.args[0], env, loop, use_append, handlers=None)
+        if isinstance(s, ast.If) and any(isinstance(x, ast.NamedExpr) for x in ast.walk(s.test)):
+            # `if (v := e) <rest of the test>:` = `v = e; if v <rest of the test>:` when the assignment
+            # expression is the first thing the test evaluates
+            walrus = [x for x in ast.walk(s.test) if isinstance(x, ast.NamedExpr)]
+            w = walrus[0]
+            first = s.test
+            while first is not w:
+                if isinstance(first, ast.BoolOp):
+                    first = first.values[0]
+                elif isinstance(first, ast.Compare):
+                    first = first.left
+                elif isinstance(first, ast.UnaryOp):
+                    first = first.operand
+                else:
+                    self.bad(s, "an assignment expression that is not the first thing the test evaluates")
+            if len(walrus) != 1 or not isinstance(w.target, ast.Name):
+                self.bad(s, "more than one assignment expression in a test")
+            assign = ast.Assign(targets=[ast.Name(id=w.target.id, ctx=ast.Store())], value=w.value)
+            test2 = _Subst(w, ast.Name(id=w.target.id, ctx=ast.Load())).visit(_copy(s.test))
+            if2 = ast.If(test=test2, body=s.body, orelse=s.orelse)
+            for x in (assign, if2):
+                ast.copy_location(x, s)
+                ast.fix_missing_locations(x)
+            assign._py2lean_comment = f"{self.srcline(s)}   [the assignment expression first: {w.target.id} = {ast.unparse(w.value)}]"
+            if2._py2lean_comment = f"  … if {ast.unparse(test2)}:"
+            return self.block([assign, if2], env, loop, k)
         if isinstance(s, ast.If):
             if (loop is None or getattr(loop, "join_ty", None)) and not getattr(s, "_py2lean_comment", None):
                 return self.stmt_if_joined(s, env, loop, k)
             return self.stmt_if(s, env, loop, k)
         if isinstance(s, ast.Raise):
-            if s.exc is None or (s.cause is not None and not isinstance(s.cause, ast.Name)):
-                self.bad(s, "bare raise / raise with a cause that is not a bound exception name")
+            if s.exc is None or (s.cause is not None and not isinstance(s.cause, ast.Name) and not (isinstance(s.cause, ast.Constant) and s.cause.value is None)):
+                self.bad(s, "bare raise / raise with a cause that is not a bound exception name or None")
             e = s.exc
-            cls = e.id if isinstance(e, ast.Name) else (e.func.id if isinstance(e, ast.Call) and isinstance(e.func, ast.Name) else None)
+            f_ = e.func if isinstance(e, ast.Call) else e
+            # the class by its (last) name: `ValueError`, `exceptions.BadRequestKeyError(key)`
+            cls = f_.id if isinstance(f_, ast.Name) else (f_.attr if isinstance(f_, ast.Attribute) and dotted(f_) is not None else None)
             if cls is None or cls not in EXC_PARENT:
                 self.bad(s, "raise of something that is not a known exception class")
             if self._handlers is not None:
-                for classes_, _ in self._handlers:
+                for classes_, body_fn in self._handlers:
                     if any(exc_is(cls, h_) for h_ in classes_):
-                        self.bad(s, "raise of an exception that an enclosing except clause catches")
+                        # raised inside the `try` whose except clause catches it: control goes to
+                        # that handler (constructor arguments are not modelled: they are pure here)
+                        return self.comment(s) + ["--   (caught by the enclosing except clause)"] + body_fn(env)
             return self.comment(s) + self.wrap_error(f'"{cls}"', s, loop, env)
+        if isinstance(s, ast.With):
+            if len(s.items) != 1 or s.items[0].optional_vars is not None or ast.unparse(s.items[0].context_expr) not in self.spec.with_noop:
+                self.bad(s, "with statement (only context managers the spec declares to be no-ops in the sequential model)")
+            return self.comment(s, self.lines[s.lineno - 1].strip() + "   [context manager without effect in the sequential model]") + self.block(s.body, env, loop, k)
+        if isinstance(s, ast.Assert):
+            # `assert c, msg` = `if not c: raise AssertionError(msg)` (the message is not modelled;
+            # running under `python -O` is outside the model)
+            r = ast.Raise(exc=ast.Name(id="AssertionError", ctx=ast.Load()), cause=None)
+            n_ = ast.If(test=ast.UnaryOp(op=ast.Not(), operand=s.test), body=[r], orelse=[])
+            for x in (r, n_):
+                ast.copy_location(x, s)
+            ast.fix_missing_locations(n_)
+            n_._py2lean_comment = self.srcline(s)
+            r._py2lean_comment = "  (assertion failed) raise AssertionError"
+            return self.stmt_if(n_, env, loop, k)
         if isinstance(s, ast.Try):
             return self.stmt_try(s, env, loop, k)
         if isinstance(s, ast.For):
@@ -1702,6 +2165,25 @@ class Translator:
             return lines + self.bind_raising(s, value2, env3, loop, handlers, cont, first=False)
         if lazy:
             self.bad(s, "a raising call under a short-circuiting operator (only supported in the test of an `if`, where it is rewritten to nested ifs)")
+        if res is not None and res[0].effect_key and res[0].raises:
+            # a raising call with an effect on a local container (`d.pop(k)`): `.ok (value, new container)`
+            fn, args = res
+            key_ = fn.effect_key
+            ce = self.apply(fn, args, node, env)
+            call_lean = ce.lean.replace(fn.lean, f"{fn.lean} {env[key_].lean}", 1)
+            self.tmp += 1
+            tmp = f"v{self.tmp}_"
+            stv = env[key_]
+            env3 = dict(env)
+            keyn = f"<tmp:{id(node)}>"
+            env3[keyn] = Var(f"{tmp}.1", ce.ty)
+            env3[key_] = Var(stv.lean, stv.ty)
+            drop_facts(env3, key_)
+            value2 = _Subst(node, ast.Name(id=keyn, ctx=ast.Load())).visit(_copy(value))
+            ast.fix_missing_locations(value2)
+            ok_lines = [f"let {stv.lean} : {lean_ty(stv.ty)} := {tmp}.2"] + self.bind_raising(s, value2, env3, loop, handlers, cont, first=False)
+            err_lines = self.error_arm(fn.raises, handlers, s, env, loop)
+            return [f"match {call_lean} with"] + err_lines + [f"| .ok {tmp} =>"] + ind(ok_lines)
         if res is not None and res[0].partial_model and handlers is not None:
             self.bad(s, f"{res[0].lean} is a partial model (marker error outside its domain) and must not be called inside try")
         self.tmp += 1
@@ -1710,13 +2192,17 @@ class Translator:
             # indexing xs[i]
             b = self.plain(self.expr(node.value, env), node.value)
             ix = self.plain(self.expr(node.slice, env), node.slice)
-            if ix.ty != INT:
+            if b.ty.kind == "Dict":
+                if ix.ty != b.ty.args[0]:
+                    self.bad(node, f"dict key of type {ix.ty} for a {b.ty}")
+                call_lean, rty = f"Pre.dictGetItem {P(b)} {P(ix)}", b.ty.args[1]
+            elif ix.ty != INT:
                 self.bad(node, "index that is not an int")
-            if b.ty.kind == "List":
+            elif b.ty.kind == "List":
                 call_lean, rty = f"Pre.getItem {P(b)} {P(ix)}", b.ty.args[0]
             else:
                 call_lean, rty = f"Pre.getItemStr {P(b)} {P(ix)}", b.ty
-            raises = ("IndexError",)
+            raises = ("KeyError",) if b.ty.kind == "Dict" else ("IndexError",)
         else:
             fn, args = res
             ce = self.apply(fn, args, node, env)
@@ -1768,9 +2254,18 @@ class Translator:
         if isinstance(target, str) or isinstance(target, ast.Name):
             nm = target if isinstance(target, str) else target.id
             ln = lean_name(nm.replace("self.", "self_"))
-            if nm in self.spec.locals and not (e.ty.kind == "List" and e.ty.args[0] == NONE):
+            if nm in self.spec.locals and not (e.ty.kind in ("List", "Dict") and e.ty.args[0] == NONE):
                 e = self.coerce(e, parse_ty(self.spec.locals[nm]), s)
             ty = e.ty
+            if ty.kind == "Dict" and ty.args[0] == NONE:
+                if nm in self.spec.locals:
+                    ty = parse_ty(self.spec.locals[nm])
+                    e = self.coerce(e, ty, s)
+                elif nm in env and env[nm].ty.kind == "Dict":
+                    ty = env[nm].ty
+                    e = self.coerce(e, ty, s)
+                else:
+                    self.bad(s, "empty dict literal of unknown key / value types (declare it in the spec via `locals`)")
             if ty.kind == "List" and ty.args[0] == NONE:
                 if nm in self.spec.locals:
                     ty = parse_ty(self.spec.locals[nm])
@@ -1783,9 +2278,9 @@ class Translator:
             if nm in env and env[nm].ty != ty:
                 old = env[nm].ty
                 # keep a declared Optional type only when the new value is None / plain of the same base
-                if not (old.kind in ("Opt", "None") or ty.kind in ("Opt", "None") or old == ty):
-                    self.bad(s, f"{nm!r} changes its type from {old} to {ty}")
-            env2 = {k: v for k, v in env.items() if not k.startswith(nm + "[")}
+                if not (old.kind in ("Opt", "None") or ty.kind in ("Opt", "None") or old == ty or nm in self.spec.retype or "*" in self.spec.retype):
+                    self.bad(s, f"{nm!r} changes its type from {old} to {ty} (declare it in the spec's `retype` if that is intended)")
+            env2 = {k: v for k, v in env.items() if not (k.startswith(nm + "[") or (k.startswith(nm + ".") and env.get(nm) is not None and env[nm].ty.kind == "Rec"))}
             env2[nm] = Var(ln, ty)
             if isinstance(s, ast.Assign) and isinstance(s.value, ast.Call) and isinstance(s.value.func, ast.Name) and s.value.func.id == "iter" and len(s.value.args) == 1:
                 src_key = self.target_key(s.value.args[0], env)
@@ -1799,6 +2294,21 @@ class Translator:
             if e.var == nm and e.lean == ln:
                 return k(env2, loop)
             return [f"let {ln} : {lean_ty(ty)} := {e.lean}"] + k(env2, loop)
+        if isinstance(target, ast.Tuple) and all(isinstance(x, ast.Name) for x in target.elts) and e.ty.kind == "List" and len(target.elts) in (2, 3):
+            # `a, b = <list>`: exactly that many items, or ValueError (too many / not enough values to unpack)
+            n_ = len(target.elts)
+            self.tmp += 1
+            tmp = f"v{self.tmp}_"
+            tup = E(tmp, Tup(*([e.ty.args[0]] * n_)), None, True)
+            ok_lines = self.bind(target, tup, s, env, loop, k)
+            handlers = self._handlers
+            if handlers is None:
+                if not self.raises:
+                    self.bad(s, "unpacking a list into names can raise ValueError in a function declared pure")
+                err = ["| .error e_ =>"] + ind(self.wrap_error("e_", s, loop, env))
+            else:
+                err = self.error_arm(("ValueError",), handlers, s, env, loop)
+            return [f"match Pre.unpack{n_} {P(e)} with"] + err + [f"| .ok {tmp} =>"] + ind(ok_lines)
         if isinstance(target, ast.Tuple) and all(isinstance(x, ast.Name) for x in target.elts):
             if e.ty.kind != "Tup" or len(e.ty.args) != len(target.elts):
                 self.bad(s, f"unpacking a {e.ty} into {len(target.elts)} names")
@@ -1840,6 +2350,8 @@ class Translator:
                 # a bytearray: slice assignment only
                 none = ast.Constant(value=None)
                 return ("setslice", key, [t.slice.lower or none, t.slice.upper or none, s.value])
+            if key is not None and env[key].ty.kind == "Dict" and not isinstance(t.slice, ast.Slice):
+                return ("dictset", key, [t.slice, s.value])
             if key is not None and env[key].ty.kind == "List":
                 if isinstance(t.slice, ast.Slice):
                     if t.slice.step is not None:
@@ -1861,6 +2373,8 @@ class Translator:
         if kind.startswith("method:"):
             lean_fn, ptys, raises = MUTATORS[(ty.kind, kind[7:])]
             ptys = [elt if t == "elt" else t for t in ptys]
+        elif kind == "dictset":
+            lean_fn, ptys, raises = "Pre.dictSet", [ty.args[0], ty.args[1]], ()
         elif kind == "setitem":
             lean_fn, ptys, raises = "Pre.setItem", [INT, elt], ("IndexError",)
         elif kind == "delitem":
@@ -2006,6 +2520,40 @@ class Translator:
         tgt = s.targets[0]
         return lines + self.bind(tgt, E(f"{P(it)}.filter {fn}", it.ty), s, env, loop, k)
 
+    def stmt_nested_def(self, s, env, loop, k):
+        """`def f(a, b): ...` inside the function: a local Lean function (pure: its body may not
+        raise to the outside and may not assign enclosing variables - it gets its own scope)"""
+        if s.name not in self.spec.nested:
+            self.bad(s, "nested function that the spec does not declare in `nested`")
+        params, rty_text = self.spec.nested[s.name]
+        a = s.args
+        if a.vararg or a.kwarg or a.kwonlyargs or a.defaults or s.decorator_list:
+            self.bad(s, "nested function with defaults / *args / decorators")
+        names = [x.arg for x in a.posonlyargs] + [x.arg for x in a.args]
+        if names != [p for p, _ in params]:
+            self.bad(s, f"nested function {s.name}: parameters are {names}, the spec declares {[p for p, _ in params]}")
+        for st_ in s.body:
+            for x in ast.walk(st_):
+                if isinstance(x, (ast.Nonlocal, ast.Global, ast.While, ast.For, ast.Yield, ast.YieldFrom)):
+                    self.bad(x, "nonlocal / loops / yield inside a nested function")
+        rty = parse_ty(rty_text)
+        saved = (self.result_ty, self.ret_lean_ty, self.raises, self._handlers, getattr(self, "nested_fn", False))
+        self.result_ty, self.ret_lean_ty, self.raises, self._handlers, self.nested_fn = rty, lean_ty(rty), False, None, True
+        try:
+            env2 = {key: v for key, v in env.items()}
+            binders = ""
+            for pnm, pty in params:
+                t_ = parse_ty(pty)
+                env2[pnm] = Var(lean_name(pnm), t_)
+                drop_facts(env2, pnm)
+                binders += f" ({lean_name(pnm)} : {lean_ty(t_)})"
+            body = self.block(s.body, env2, None, lambda e_, l_: self.emit_return(E("none", NONE, None, True), s, e_, None))
+        finally:
+            self.result_ty, self.ret_lean_ty, self.raises, self._handlers, self.nested_fn = saved
+        ln = lean_name(s.name)
+        self.__dict__.setdefault("local_fns", {})[s.name] = Fn(ln, [parse_ty(t) for _, t in params], rty)
+        return [f"-- def {s.name}({', '.join(names)}):   [a local function]", f"let {ln}{binders} : {lean_ty(rty)} :="] + ind(body) + k(env, loop)
+
     def snapshot(self):
         return (self.tmp, self.nloops, list(self.aux), dict(self.loop_memo), self.njoin)
 
@@ -2048,8 +2596,24 @@ class Translator:
             calls.append(len(lines))
             return lines
 
-        plain = self.stmt_if(s, env, loop, k_count)
-        if len(calls) < 2 or max(calls) < JOIN_MIN_LINES:
+        # one copy of the following statements per branch - unless the translation has grown large
+        # already (then they are shared through a local function right away)
+        plain = None
+        depth = getattr(self, "plain_depth", 0)
+        try:
+            self.size_soft = 20000
+            self.plain_depth = depth + 1
+            if self.size <= 20000:
+                plain = self.stmt_if(s, env, loop, k_count)
+        except PlainTooBig:
+            if depth > 0:
+                raise  # the enclosing attempt is too large as well: it falls back first
+            plain = None
+        finally:
+            self.plain_depth = depth
+            if depth == 0:
+                self.size_soft = 10**9
+        if plain is not None and (len(calls) < 2 or max(calls) < JOIN_MIN_LINES):
             return plain
         after_plain = self.snapshot()
         self.restore(snap)
@@ -2057,10 +2621,18 @@ class Translator:
         jname = f"k{self.njoin}_"
         names = self.modified_names([s], env)
         jp = {"sig": None}
+        joined = None
+        arrivals = []
 
         def kj(env2, loop2):
             params = [(nm, env2[nm]) for nm in names if nm in env2]
             sig = [(nm, v.ty) for nm, v in params]
+            if joined is not None and [nm for nm, _ in sig] == [nm for nm, _ in joined]:
+                if any(t == NONE for _, t in joined):
+                    raise JoinMismatch()
+                jp["sig"] = joined
+                args = [P(self.coerce(E(v.lean, v.ty, None, True), t_, s)) if v.ty != NONE else "none" for (nm, v), (_, t_) in zip(params, joined)]
+                return [jname + "".join(" " + a_ for a_ in args)]
             if any(t == NONE for _, t in sig):
                 raise JoinMismatch()
             if jp["sig"] is None:
@@ -2079,9 +2651,63 @@ class Translator:
                 drop_facts(env_j, nm)
             tail = k(env_j, loop)
         except JoinMismatch:
-            self.restore(after_plain)
-            return plain
+            if plain is not None:
+                self.restore(after_plain)
+                return plain
+            # too large to copy, and the branches arrive with different variable types: where they
+            # differ only by None-ness (`str` on one path, None on another) the shared function takes
+            # the Optional type
+            return self.stmt_if_joined_widened(s, env, loop, k, snap, names)
         binders = "".join(f" ({lean_name(nm)} : {lean_ty(ty)})" for nm, ty in jp["sig"])
+        jty = self.ret_lean_ty if loop is None else loop.join_ty
+        head = [f"-- [the statements after the following `if`, shared by its branches: {jname}]", f"let {jname}{binders} : {jty} :="]
+        return head + ind(tail) + body
+
+    def stmt_if_joined_widened(self, s, env, loop, k, snap, names):
+        self.restore(snap)
+        self.njoin += 1
+        jname = f"k{self.njoin}_"
+        arrivals = []
+
+        def k_collect(env2, loop2):
+            arrivals.append([(nm, env2[nm].ty) for nm in names if nm in env2])
+            return ["<shared>"]
+
+        snap_a = self.snapshot()
+        self.stmt_if(s, env, loop, k_collect)
+        self.restore(snap_a)
+        if not arrivals:
+            self.bad(s, "internal: no path reaches the statements after this `if`")
+        # a variable that only some paths define cannot be read by the shared statements
+        common = [nm for nm, _ in arrivals[0] if all(nm in dict(a_) for a_ in arrivals)]
+        joined = []
+        for nm in common:
+            t_ = dict(arrivals[0])[nm]
+            for a_ in arrivals[1:]:
+                t_ = self.join_ty(t_, dict(a_)[nm], s)
+            if t_ == NONE:
+                continue  # None on every path: stays known-None, no parameter needed
+            joined.append((nm, t_))
+        jnames = [nm for nm, _ in joined]
+
+        def kj(env2, loop2):
+            params = [(nm, env2[nm]) for nm in jnames]
+            args = [P(self.coerce(E(v.lean, v.ty, None, True), t_, s)) if v.ty != NONE else "none" for (nm, v), (_, t_) in zip(params, joined)]
+            return [jname + "".join(" " + a_ for a_ in args)]
+
+        body = self.stmt_if(s, env, loop, kj)
+        env_j = {key: v for key, v in env.items() if not any(key.startswith(nm + "[") for nm, _ in joined)}
+        for nm in names:
+            if nm in env_j and nm not in common:
+                del env_j[nm]
+        for nm in common:
+            if nm not in jnames:
+                env_j[nm] = Var(lean_name(nm), NONE)
+        for nm, ty in joined:
+            env_j[nm] = Var(lean_name(nm), ty)
+            drop_facts(env_j, nm)
+        tail = k(env_j, loop)
+        binders = "".join(f" ({lean_name(nm)} : {lean_ty(ty)})" for nm, ty in joined)
         jty = self.ret_lean_ty if loop is None else loop.join_ty
         head = [f"-- [the statements after the following `if`, shared by its branches: {jname}]", f"let {jname}{binders} : {jty} :="]
         return head + ind(tail) + body
@@ -2199,13 +2825,29 @@ class Translator:
                     return ["--   (test decided here: false)"] + self.block(s.orelse, env2, loop, k)
                 # inside the branches the test is known (until a variable it reads is re-assigned):
                 # a later syntactically equal test is decided, as Python's flow guarantees
-                a = self.block(s.body, add_fact(env2, test, True), loop, k)
-                b = self.block(s.orelse, add_fact(env2, test, False), loop, k)
+                a = self.block(s.body, self.bool_identity_facts(add_fact(env2, test, True), test, True), loop, k)
+                b = self.block(s.orelse, self.bool_identity_facts(add_fact(env2, test, False), test, False), loop, k)
                 return [f"if {c.lean} then"] + ind(a) + ["else"] + ind(b)
 
             return self.guarded(s, env1, loop, inner)
 
         return body(env)
+
+    def bool_identity_facts(self, env, test, value: bool):
+        """for a bool-typed name `b`: `b is True` / `b is False` being true or false tells the truth
+        value of `b` itself (also inside a true conjunction / a false disjunction)"""
+        if isinstance(test, ast.BoolOp) and value == isinstance(test.op, ast.And):
+            for v in test.values:
+                env = self.bool_identity_facts(env, v, value)
+            return env
+        if isinstance(test, ast.UnaryOp) and isinstance(test.op, ast.Not):
+            return self.bool_identity_facts(env, test.operand, not value)
+        if isinstance(test, ast.Compare) and len(test.ops) == 1 and isinstance(test.ops[0], (ast.Is, ast.IsNot)) and isinstance(test.left, ast.Name):
+            c = test.comparators[0]
+            if isinstance(c, ast.Constant) and isinstance(c.value, bool) and test.left.id in env and env[test.left.id].ty == BOOL:
+                holds = value if isinstance(test.ops[0], ast.Is) else not value  # `b is c` holds?
+                return add_fact(env, test.left, c.value if holds else not c.value)
+        return env
 
     def stmt_try(self, s, env, loop, k):
         """`try: <statements> except <classes> [as e]: <handler>`: every raising call of the body is
@@ -2300,13 +2942,15 @@ class Translator:
 
     def stmt_while(self, s, env, loop, k):
         """`while cond: body` as a recursion on the explicit `fuel`: one unit per iteration; with no
-        fuel left the function answers the marker error "py2lean: out of fuel" """
-        if loop is not None:
-            self.bad(s, "nested loops")
-        if s.orelse:
-            self.bad(s, "while ... else")
+        fuel left the function answers the marker error "py2lean: out of fuel". A loop whose `break`
+        hands variables first assigned in the body to the statements after it (or that has an `else`
+        clause) answers `Pre.LoopB`: `.brk` = left by `break`, `.fall` = the test became false."""
+        if loop is not None and getattr(loop, "iter_arg", None) != "fuel_":
+            self.bad(s, "a while loop nested in a for loop")
+        outer_ty = loop.result_ty if loop is not None else self.ret_lean_ty
         if not self.raises:
             self.bad(s, "a while loop needs a function declared raises=True (running out of fuel is an error value)")
+        has_break = own_breaks(s.body)
 
         def body(env1):
             assigned = self.modified_names(s.body, env1)
@@ -2321,31 +2965,65 @@ class Translator:
             if self.spec.state:
                 used = used | set(self.state_keys())
             captured = [nm for nm in env1 if not nm.startswith("<") and nm in used and nm not in state and env1[nm].ty != NONE]
+            after_names = names_read_before_written(getattr(s, "_py2lean_rest", []) or [])
+            exports = [nm for nm in assigned if nm not in env1 and nm in after_names and "." not in nm] if has_break else []
+            # `.brk` is only needed when it differs from `.fall`: variables handed over, or an else clause
+            use_brk = has_break and bool(exports or s.orelse)
             fname = f"{self.spec.name}.loop{self.nloops + 1}"
+            self.nloops += 1  # (reserved now: a loop nested in the body takes the next number)
             head = self.opaque_args + "".join(" " + env1[nm].lean for nm in captured)
-            lc = LoopCtx(fname, head, state, state_tys)
-            lc.iter_arg = "fuel_"
-            lc.iter_key = None
             st_ty = "Unit" if not state else " × ".join(lean_ty(t, False) for t in state_tys)
-            # inside a while loop the statements after an `if` may be shared by a local function
-            lc.join_ty = f"Pre.Loop {_par(self.ret_lean_ty)} {_par(st_ty)}"
-            env_b = {nm: env1[nm] for nm in captured}
-            for nm, ty in zip(state, state_tys):
-                env_b[nm] = Var(env1[nm].lean, ty)
-            if self.raising_calls(s.test, env_b):
-                self.bad(s, "a raising / effectful call in the test of a while loop")
-            c = self.cond(s.test, env_b)
-            body_lines = self.block(s.body, env_b, lc, lambda env2, loop2: self.loop_next(lc, env2, s))
-            st_ty = "Unit" if not state else " × ".join(lean_ty(t, False) for t in state_tys)
+
+            def translate_body(export_tys):
+                lc = LoopCtx(fname, head, state, state_tys)
+                lc.iter_arg = "fuel_"
+                lc.iter_key = None
+                lc.parent = loop
+                lc.has_break = use_brk
+                lc.exports = exports
+                lc.export_tys = export_tys
+                if use_brk:
+                    brk_items = [lean_ty(t, False) for t in state_tys + (export_tys or [])]
+                    brk_ty = "Unit" if not brk_items else " × ".join(brk_items)
+                    lc.result_ty = f"Pre.LoopB {_par(outer_ty)} {_par(st_ty)} {_par(brk_ty)}"
+                else:
+                    lc.result_ty = f"Pre.Loop {_par(outer_ty)} {_par(st_ty)}"
+                # inside a while loop the statements after an `if` may be shared by a local function
+                lc.join_ty = lc.result_ty
+                env_b = {nm: env1[nm] for nm in captured}
+                for nm, ty in zip(state, state_tys):
+                    env_b[nm] = Var(env1[nm].lean, ty)
+                if self.raising_calls(s.test, env_b):
+                    self.bad(s, "a raising / effectful call in the test of a while loop")
+                c = self.cond(s.test, env_b)
+                body_lines = self.block(s.body, env_b, lc, lambda env2, loop2: self.loop_next(lc, env2, s))
+                return lc, env_b, c, body_lines
+
+            if use_brk and exports:
+                # the types of the variables handed over by `break` are only known after the body was
+                # translated: a first pass finds them, the second one uses them in the result type
+                snap = self.snapshot()
+                lc0, _, _, _ = translate_body(None)
+                export_tys = lc0.export_tys
+                if export_tys is None:
+                    self.bad(s, "internal: break not reached")
+                self.restore(snap)
+                self.nloops += 1
+                lc, env_b, c, body_lines = translate_body(list(export_tys))
+            else:
+                lc, env_b, c, body_lines = translate_body([] if use_brk else None)
             binders = (" " + self.implicit.strip() if self.implicit else "") + "".join(f" ({nm} : {ty})" for nm, ty in self.spec.opaque)
             binders += "".join(f" ({env1[nm].lean} : {lean_ty(env1[nm].ty)})" for nm in captured)
-            sig = " → ".join(["Nat"] + [lean_ty(t, True) for t in state_tys] + [f"Pre.Loop {_par(self.ret_lean_ty)} {_par(st_ty)}"])
+            sig = " → ".join(["Nat"] + [lean_ty(t, True) for t in state_tys] + [lc.result_ty])
             st_pats = "".join(", " + env1[nm].lean for nm in state)
-            aux = [f"/-- the `{self.srcline(s)}` loop of `{self.spec.qualname}`, one unit of fuel per iteration: `.ret r` = the function returned `r` inside the loop (or ran out of fuel: a marker error), `.fall st` = the loop test became false (or `break`) with loop state `st` -/", f"def {fname}{binders} : {sig}"]
+            nested_note = "" if loop is None else f" (nested in `{loop.fname}`: `.ret x` hands `x`, a result of that loop's body, on to it; fuel = what the enclosing loop has left)"
+            what = "`.fall st` = the loop test became false (or `break`) with loop state `st`"
+            if use_brk:
+                what = "`.fall st` = the loop test became false with loop state `st`, `.brk (st…, variables read after the loop…)` = the loop was left by `break`"
+            aux = [f"/-- the `{self.srcline(s)}` loop of `{self.spec.qualname}`{nested_note}, one unit of fuel per iteration: `.ret r` = the function returned `r` inside the loop (or ran out of fuel: a marker error), {what} -/", f"def {fname}{binders} : {sig}"]
             aux.append(f"  | 0{st_pats} => " + self.wrap_error('"py2lean: out of fuel"', s, lc, env_b)[0])
             aux.append(f"  | fuel_ + 1{st_pats} =>")
             aux += ["    " + ln for ln in self.comment(s) + [f"if {c.lean} then"] + ind(body_lines) + ["else", "  .fall " + self.state_tuple(lc, env_b, s)]]
-            self.nloops += 1
             self.aux.append("\n".join(aux) + "\n")
             init = "".join(" " + P(E(env1[nm].lean, env1[nm].ty, None, True)) for nm in state)
             env_after = dict(env1)
@@ -2357,26 +3035,70 @@ class Translator:
                 fall_pat = env1[state[0]].lean
             else:
                 fall_pat = "(" + ", ".join(env1[nm].lean for nm in state) + ")"
-            return [f"match {fname}{head} fuel{init} with", "| .ret r_ => r_", f"| .fall {fall_pat} =>"] + ind(k(env_after, None))
+            fuel_arg = "fuel" if loop is None else "fuel_"
+            call = f"{fname}{head} {fuel_arg}{init}"
+            after_fall = (self.comment(s, "else:  (of the while loop: not after `break`)") + self.block(s.orelse, env_after, loop, k)) if s.orelse else k(env_after, loop)
+            if not use_brk:
+                return [f"match {call} with", "| .ret r_ => r_", f"| .fall {fall_pat} =>"] + ind(after_fall)
+            env_brk = dict(env_after)
+            pats = [env1[nm].lean for nm in state]
+            for nm, ty in zip(lc.exports, lc.export_tys):
+                env_brk[nm] = Var(lean_name(nm), ty)
+                pats.append(lean_name(nm))
+            brk_pat = "()" if not pats else (pats[0] if len(pats) == 1 else "(" + ", ".join(pats) + ")")
+            after_brk = k(env_brk, loop)
+            return [f"match {call} with", "| .ret r_ => r_", f"| .fall {fall_pat} =>"] + ind(after_fall) + [f"| .brk {brk_pat} =>"] + ind(after_brk)
 
         return self.comment(s) + self.guarded(s, env, loop, body)
 
     def stmt_for_unrolled(self, s, env, loop, k):
         """`for x in (a, b, ...):` over a tuple / list *literal*: the body is repeated once per item
-        (`x = a; body; x = b; body`); `break` / `continue` are not supported in such a body"""
-        if s.orelse or not isinstance(s.target, ast.Name):
-            self.bad(s, "unrolled for with else / a tuple target")
+        (`x = a; body; x = b; body`); a tuple target `for k, v in ((k1, v1), ...)` is assigned
+        component-wise; `continue` ends the current copy of the body (the statements after an `if`
+        that contains it move into its branches); `break` is not supported in such a body"""
+        if s.orelse:
+            self.bad(s, "unrolled for with else")
         for x in ast.walk(ast.Module(body=s.body, type_ignores=[])):
-            if isinstance(x, (ast.Break, ast.Continue)):
-                self.bad(x, "break / continue in a loop over a literal tuple")
+            if isinstance(x, ast.Break):
+                self.bad(x, "break in a loop over a literal tuple")
+        targets = [s.target] if isinstance(s.target, ast.Name) else (list(s.target.elts) if isinstance(s.target, ast.Tuple) and all(isinstance(t_, ast.Name) for t_ in s.target.elts) else None)
+        if targets is None:
+            self.bad(s, "unrolled for with a nested tuple target")
+
+        def has_continue(st_):
+            return any(isinstance(x, ast.Continue) for x in ast.walk(st_))
+
+        def seq(stmts):
+            """the statements of one iteration with `continue` eliminated"""
+            if not stmts:
+                return []
+            st_, rest = stmts[0], stmts[1:]
+            if isinstance(st_, ast.Continue):
+                return []
+            if isinstance(st_, ast.If) and has_continue(st_):
+                n_ = ast.If(test=st_.test, body=seq(list(st_.body) + rest) or [ast.Pass()], orelse=seq(list(st_.orelse) + rest))
+                ast.copy_location(n_, st_)
+                ast.fix_missing_locations(n_)
+                return [n_]
+            if has_continue(st_):
+                self.bad(st_, "continue inside a compound statement other than if, in a loop over a literal tuple")
+            return [st_] + seq(rest)
+
         stmts = []
         for item in s.iter.elts:
-            a = ast.Assign(targets=[ast.Name(id=s.target.id, ctx=ast.Store())], value=item)
-            ast.copy_location(a, s)
-            ast.fix_missing_locations(a)
-            a._py2lean_comment = f"{self.srcline(s)}   [unrolled: {s.target.id} = {ast.unparse(item)}]"
-            stmts.append(a)
-            stmts += s.body
+            if isinstance(s.target, ast.Name):
+                pairs = [(s.target, item)]
+            else:
+                if not (isinstance(item, ast.Tuple) and len(item.elts) == len(targets)):
+                    self.bad(s, "a tuple target needs literal tuples of the same length as items")
+                pairs = list(zip(targets, item.elts))
+            for t_, v_ in pairs:
+                a = ast.Assign(targets=[ast.Name(id=t_.id, ctx=ast.Store())], value=v_)
+                ast.copy_location(a, s)
+                ast.fix_missing_locations(a)
+                a._py2lean_comment = f"{self.srcline(s)}   [unrolled: {t_.id} = {ast.unparse(v_)}]"
+                stmts.append(a)
+            stmts += seq([_copy(b_) for b_ in s.body])
         return self.block(stmts, env, loop, k)
 
     def stmt_for(self, s, env, loop, k):
@@ -2384,6 +3106,28 @@ class Translator:
             return self.stmt_for_unrolled(s, env, loop, k)
         if loop is not None:
             self.bad(s, "nested loops")
+        if not getattr(s, "_py2lean_iter_bound", False):
+            # raising calls in the iterable are evaluated once, before the loop
+
+            def with_iter(v, e):
+                s2 = ast.For(target=s.target, iter=v, body=s.body, orelse=s.orelse)
+                ast.copy_location(s2, s)
+                s2._py2lean_rest = getattr(s, "_py2lean_rest", [])
+                s2._py2lean_iter_bound = True
+                s2._py2lean_comment = "  (the loop, over the value bound above)"
+                return self.stmt_for(s2, e, loop, k)
+
+            def try_bind(env1):
+                if self.raising_calls(s.iter, env1):
+                    return self.comment(s) + self.bind_raising(s, s.iter, env1, loop, None, with_iter)
+                return None
+
+            try:
+                bound = try_bind(env)
+            except (NeedUnwrap, NoneUsed):
+                bound = None
+            if bound is not None:
+                return bound
         has_break = any(isinstance(x, ast.Break) for st_ in s.body for x in ast.walk(st_))
         if s.orelse and not has_break:
             # without `break` the else clause simply runs after the loop
@@ -2436,9 +3180,14 @@ class Translator:
                 used = used | set(self.state_keys())
             captured = [nm for nm in env1 if not nm.startswith("<") and nm in used and nm not in state and nm not in targets and env1[nm].ty != NONE and nm != iter_var]
             fname = f"{self.spec.name}.loop{self.nloops + 1}"
-            head = self.opaque_args + "".join(" " + env1[nm].lean for nm in captured)
+            fuel_head = " fuel" if self.spec.needs_fuel else ""  # callees inside the body take the function's fuel
+            head = fuel_head + self.opaque_args + "".join(" " + env1[nm].lean for nm in captured)
             lc = LoopCtx(fname, head, state, state_tys)
             lc.has_break = has_break
+            if not has_break and self.spec.join_in_loops:
+                # the statements after an `if` inside the body may be shared by a local function
+                st_ty0 = "Unit" if not state else " × ".join(lean_ty(t, False) for t in state_tys)
+                lc.join_ty = f"Pre.Loop {_par(self.ret_lean_ty)} {_par(st_ty0)}"
             it_src = s.iter.args[0] if isinstance(s.iter, ast.Call) and isinstance(s.iter.func, ast.Name) and s.iter.func.id == "enumerate" and len(s.iter.args) == 1 else s.iter
             lc.iter_key = self.target_key(it_src, env1)
             if has_break:
@@ -2476,7 +3225,7 @@ class Translator:
                 self.bad(s, f"the iterator {iter_var!r} is used inside the loop that consumes it")
             body_lines = self.block(s.body, env_b, lc, k_body)
             st_ty = "Unit" if not state else " × ".join(lean_ty(t, False) for t in state_tys)
-            binders = (" " + self.implicit.strip() if self.implicit else "") + "".join(f" ({nm} : {ty})" for nm, ty in self.spec.opaque)
+            binders = (" " + self.implicit.strip() if self.implicit else "") + (" (fuel : Nat)" if self.spec.needs_fuel else "") + "".join(f" ({nm} : {ty})" for nm, ty in self.spec.opaque)
             binders += "".join(f" ({env1[nm].lean} : {lean_ty(env1[nm].ty)})" for nm in captured)
             if has_break:
                 if lc.export_tys is None:
@@ -2499,7 +3248,11 @@ class Translator:
             aux += ["    " + ln for ln in lines_bind + body_lines]
             text = "\n".join(aux) + "\n"
             # the same loop reached on several paths (duplicated continuations) is emitted once
-            key = (id(s), text.replace(fname, "<loop>"))
+            # (temporaries are numbered per function: two copies that differ only in those numbers
+            # are the same definition)
+            import re as _re
+
+            key = (id(s), _re.sub(r"\b([vrtcpx])\d+_", r"\1N_", text.replace(fname, "<loop>")))
             if key in self.loop_memo:
                 old = self.loop_memo[key]
                 lc.fname = old
@@ -2676,6 +3429,10 @@ def _norm_test(n):
 
 
 def add_fact(env, test, value: bool):
+    if isinstance(test, ast.BoolOp) and value == isinstance(test.op, ast.And):
+        # a true conjunction makes every conjunct true, a false disjunction every disjunct false
+        for v in test.values:
+            env = add_fact(env, v, value)
     key, pol, n = _norm_test(test)
     names = {x.id for x in ast.walk(n) if isinstance(x, ast.Name)}
     names |= {d for d in (dotted(x) for x in ast.walk(n) if isinstance(x, ast.Attribute)) if d}
@@ -2701,6 +3458,44 @@ def drop_facts(env, name):
     facts = env.get(FACTS)
     if facts:
         env[FACTS] = {k: v for k, v in facts.items() if name not in v[1]}
+
+
+def names_read_before_written(stmts) -> set:
+    """plain names whose value on entry may be read by these statements: every name that is loaded
+    somewhere, except those that a statement at the top level of the sequence assigns
+    unconditionally (plain assignment target / `for` target) before any statement loads them"""
+    out, killed = set(), set()
+    for st in stmts:
+        loads = set()
+        if isinstance(st, ast.Assign):
+            loads = {x.id for x in ast.walk(st.value) if isinstance(x, ast.Name)}
+            for t_ in st.targets:
+                loads |= {x.id for x in ast.walk(t_) if isinstance(x, ast.Name) and isinstance(x.ctx, ast.Load)}
+            stores = {x.id for t_ in st.targets for x in ast.walk(t_) if isinstance(x, ast.Name) and isinstance(x.ctx, ast.Store)}
+        elif isinstance(st, ast.For):
+            loads = {x.id for x in ast.walk(st.iter) if isinstance(x, ast.Name)}
+            stores = {x.id for x in ast.walk(st.target) if isinstance(x, ast.Name)}
+            inner = {x.id for b in st.body + st.orelse for x in ast.walk(b) if isinstance(x, ast.Name) and isinstance(x.ctx, ast.Load)}
+            loads |= inner - stores
+        else:
+            loads = {x.id for x in ast.walk(st) if isinstance(x, ast.Name) and isinstance(x.ctx, ast.Load)}
+            stores = set()
+        out |= loads - killed
+        killed |= stores
+    return out
+
+
+def own_breaks(stmts) -> bool:
+    """does a `break` of this loop (not of a loop nested in it) occur in its body?"""
+    def walk(x):
+        if isinstance(x, ast.Break):
+            return True
+        if isinstance(x, (ast.For, ast.While, ast.FunctionDef)):
+            # a nested loop's own breaks do not count, but its else clause belongs to this level
+            return any(walk(y) for y in getattr(x, "orelse", []))
+        return any(walk(c) for c in ast.iter_child_nodes(x))
+
+    return any(walk(st) for st in stmts)
 
 
 def assigned_names(stmts):
